@@ -157,10 +157,12 @@ CLAIMED["C07"] = dict(
     technique="Lean 4 proofs that an applied word is found by look-up under its reading and that adding words never removes a "
               "look-up result (induction on the map), guess conjugability by decide +kernel + registrations of every kind on the "
               "real server with polling conversions of every conjugated form",
-    text="C07_added_word_found, C07_monotone, C07_guess_conjugable are kernel-checked; every conjugated form (computed by the real "
+    text="C07_added_word_found, C07_monotone, C07_guess_conjugable and C07_registered_word_offered (candidate level: once applied, "
+         "an independent word is offered for every input beginning with its reading, in every context, unless the list is cut at n "
+         "- from C03_complete_head and C02_full) are kernel-checked; every conjugated form (computed by the real "
          "dic crate and by the model) of every registration must be offered for its reading by the real server within 3 s.",
-    note="PARTIAL: 'within bounded time' is the updater getting scheduled (observed). Candidate-level visibility combines these "
-         "lemmas with C03 (completeness at the head) and C04 (the trie is the key set). " + SRV_NOTE, design="5/C07")
+    note="PARTIAL: 'within bounded time' is the updater getting scheduled (observed); the real trie being the key set is C04. "
+         + SRV_NOTE, design="5/C07")
 CLAIMED["C08"] = dict(
     engine="lean+corr_server",
     technique="Lean 4 proofs: user.dic round trip for storable user dictionaries (from C10_file), accepted registrations are "
@@ -209,7 +211,8 @@ CLAIMED["C20"] = dict(
     engine="lean+corr_kkc+corr_server",
     technique="Lean 4 proofs about to_string_with_affix on chains as the search returns them (three affix patterns, no-affix case) "
               "and about confirm/applyEntry + oracle on every implementation candidate + the real session protocol with restart",
-    text="Seven theorems kernel-checked; for every generated candidate the extracted compound is compared with the expected one; "
+    text="Eight theorems kernel-checked, among them C20_compound_converts (once applied, the compound's reading converts to the "
+         "compound as one word, candidate level); for every generated candidate the extracted compound is compared with the expected one; "
          "confirming affixed candidates on the real server must make the compound convertible, saved and restart-proof.",
     note="The compound is recorded in the user dictionary twice (by the handler and by the updater) — harmless for the property. "
          + SRV_NOTE, design="5/C20")
